@@ -62,6 +62,10 @@ pub struct Model {
     /// setpack
     pub wv: Vec<isize>,
     pub adj: Vec<u32>,
+    /// potentials (deferred rewards): pot[d][e]; empty = none. With them every arc cost is shifted by phi(target) - phi(source),
+    /// the initial value by phi(root), terminal potentials are 0 (so complete solutions keep their value), and the relaxation is
+    /// no longer the identity: relax(.., dst, merged, .., cost) = cost + phi(merged) - phi(dst)
+    pub pot: Vec<Vec<isize>>,
     memo: Mutex<HashMap<(usize, u32), Option<isize>>>,
 }
 
@@ -88,8 +92,30 @@ impl Model {
             weight: vec![],
             wv: vec![],
             adj: vec![],
+            pot: vec![],
             memo: Default::default(),
         }
+    }
+    pub fn phi(&self, d: usize, x: u32) -> isize {
+        if self.pot.is_empty() {
+            return 0;
+        }
+        match self.family {
+            Family::Lifted => bits(x).iter().map(|e| self.pot[d][*e]).sum(),
+            Family::Knapsack => self.pot[d][(x % 3) as usize],
+            Family::SetPack => 0,
+        }
+    }
+    /// turns a depth-aware lifted / knapsack model without dominance rule into its "deferred rewards" variant
+    pub fn with_potentials(mut self, seed: u64) -> Self {
+        assert!(self.with_depth && !self.long_arcs && self.family != Family::SetPack);
+        let mut r = StdRng::seed_from_u64(seed ^ 0x907e_0001);
+        let w = if self.family == Family::Lifted { self.b } else { 3 };
+        self.dom = DomMode::None;
+        self.pot = (0..=self.n).map(|d| (0..w).map(|_| if d == self.n { 0 } else { r.gen_range(-3..=3) }).collect()).collect();
+        self.v0 += self.phi(0, self.root);
+        self.memo = Default::default();
+        self
     }
     /// random lifted table DP. `dense`: probability that an arc exists.
     #[allow(clippy::too_many_arguments)]
@@ -218,6 +244,14 @@ impl Model {
         }
     }
     pub fn tr(&self, var: usize, x: u32, a: usize) -> (u32, isize) {
+        let (t, c) = self.tr0(var, x, a);
+        if self.pot.is_empty() || c == isize::MIN {
+            (t, c)
+        } else {
+            (t, c + self.phi(var + 1, t) - self.phi(var, x))
+        }
+    }
+    fn tr0(&self, var: usize, x: u32, a: usize) -> (u32, isize) {
         match self.family {
             Family::Lifted => {
                 let mut t = 0u32;
@@ -338,7 +372,7 @@ impl Model {
             "slack": self.slack,
             "dom": match self.dom { DomMode::None => "none", DomMode::Exact => "exact", DomMode::Keyed => "keyed" },
             "profit": self.profit, "weight": self.weight,
-            "wv": self.wv,
+            "wv": self.wv, "pot": self.pot,
             "adj": self.adj.iter().map(|a| bits(*a).iter().map(|e| e + 1).collect::<Vec<_>>()).collect::<Vec<_>>(),
         })
     }
@@ -368,6 +402,7 @@ impl Model {
         me.profit = v["profit"].as_array().map(|a| a.iter().map(|x| x.as_i64().unwrap() as isize).collect()).unwrap_or_default();
         me.weight = v["weight"].as_array().map(|a| a.iter().map(|x| x.as_u64().unwrap() as usize).collect()).unwrap_or_default();
         me.wv = v["wv"].as_array().map(|a| a.iter().map(|x| x.as_i64().unwrap() as isize).collect()).unwrap_or_default();
+        me.pot = v["pot"].as_array().map(|a| a.iter().map(|r| r.as_array().unwrap().iter().map(|x| x.as_i64().unwrap() as isize).collect()).collect()).unwrap_or_default();
         me.adj = v["adj"].as_array().map(|a| a.iter().map(|x| x.as_array().unwrap().iter().fold(0u32, |acc, e| acc | 1 << (e.as_u64().unwrap() - 1))).collect()).unwrap_or_default();
         me
     }
@@ -475,8 +510,12 @@ impl Relaxation for Model {
             _ => St { d: v[0].d, x: v.iter().fold(0, |a, s| a | s.x) },
         }
     }
-    fn relax(&self, _a: &St, _b: &St, _m: &St, _d: Decision, c: isize) -> isize {
-        c
+    fn relax(&self, _a: &St, dst: &St, merged: &St, _d: Decision, c: isize) -> isize {
+        if self.pot.is_empty() {
+            c
+        } else {
+            c + self.phi(merged.d as usize, merged.x) - self.phi(dst.d as usize, dst.x)
+        }
     }
     fn fast_upper_bound(&self, s: &St) -> isize {
         if self.rub == RubMode::None {
